@@ -33,7 +33,7 @@ type Stream struct {
 	Pos    int      // read position (replay) / == len(Vals) (explore)
 	Replay bool
 	rng    uint64
-	Over   bool // more decisions than capacity (explore) — run is aborted as step-cap
+	Over   bool // more decisions than capacity (explore): from there on every decision is the canonical 0, which is what a replay reads past the end of a tape
 }
 
 // Tape is the complete decision record of one run.
@@ -164,8 +164,14 @@ func (t *Tape) choose(kind, n int) int {
 	if s.Replay {
 		return int(s.read() % uint32(n))
 	}
+	if s.Over {
+		return 0
+	}
 	v := uint32(s.next() % uint64(n))
 	s.record(v)
+	if s.Over {
+		return 0
+	}
 	return int(v)
 }
 
@@ -181,6 +187,12 @@ func (t *Tape) chooseWith(kind, n, v int) int {
 	if s.Replay {
 		return int(s.read() % uint32(n))
 	}
+	if s.Over {
+		return 0
+	}
 	s.record(uint32(v))
+	if s.Over {
+		return 0 // the stream is full: not recorded, so the canonical decision is taken (DESIGN §8, FA11)
+	}
 	return v
 }
